@@ -82,6 +82,8 @@ def epochSubM (cfg : Config) (agg : AggOracle) (sub : String) (s : State) : Opti
   match sub with
   | "all" => some (Impl.processEpochM cfg agg s)
   | "justification" => some (Impl.justificationM cfg s)
+  | "inactivity" => if s.fork = .phase0 then none else some (Impl.inactivityM cfg s)
+  | "rewards" => if s.fork = .phase0 then none else some (Impl.rewardsAltairM cfg s)
   | "registry" => some (Impl.registryM cfg s.validators s)
   | "slashings" => some (Impl.slashingsM cfg s.validators s)
   | "effective_balance" => some (Impl.effectiveBalanceM cfg s.validators s)
